@@ -1047,6 +1047,63 @@ static void check_history(const Config &c, const char *subject_name, const std::
 }
 
 // ---------------------------------------------------------------------------------------------
+// witness dump: the recorded history of a violating case, re-checkable by monitors/history.py
+// ---------------------------------------------------------------------------------------------
+static const char *ev_name(uint32_t t)
+{
+  switch (t)
+  {
+    case kProdCall:
+      return "prod_call";
+    case kProdRet:
+      return "prod_ret";
+    case kExportEnter:
+      return "export_enter";
+    case kExportItem:
+      return "export_item";
+    case kExportExit:
+      return "export_exit";
+    case kExpFlushEnter:
+      return "exp_flush_enter";
+    case kExpFlushExit:
+      return "exp_flush_exit";
+    case kExpShutdownEnter:
+      return "exp_shutdown_enter";
+    case kExpShutdownExit:
+      return "exp_shutdown_exit";
+    case kFlushCall:
+      return "flush_call";
+    case kFlushRet:
+      return "flush_ret";
+    case kShutdownCall:
+      return "shutdown_call";
+    case kShutdownRet:
+      return "shutdown_ret";
+    case kOverlap:
+      return "overlap";
+  }
+  return "?";
+}
+
+static void dump_history(const Config &c, const std::string &subject_name, const std::vector<Event> &ev)
+{
+  auto &R          = vf::report();
+  std::string path = R.opt.out + "/history-" + std::to_string(R.current_case()) + ".jsonl";
+  FILE *f          = fopen(path.c_str(), "w");
+  if (!f)
+    return;
+  fprintf(f,
+          "{\"config\":{\"subject\":%d,\"subject_name\":%s,\"queue\":%zu,\"batch\":%zu,\"delay_ms\":%d,"
+          "\"extra_processors\":%d,\"describe\":%s}}\n",
+          c.subject, vf::jstr(subject_name).c_str(), c.queue, c.batch, c.delay_ms, c.extra_processors,
+          vf::jstr(c.describe()).c_str());
+  for (auto &e : ev)
+    fprintf(f, "{\"t\":%llu,\"type\":\"%s\",\"tid\":%u,\"a\":%llu,\"b\":%llu}\n", static_cast<unsigned long long>(e.t),
+            ev_name(e.type), e.tid, static_cast<unsigned long long>(e.a), static_cast<unsigned long long>(e.b));
+  fclose(f);
+}
+
+// ---------------------------------------------------------------------------------------------
 // running one history
 // ---------------------------------------------------------------------------------------------
 static vf::raw_atomic<uint64_t> g_flush_ids{0}, g_shutdown_ids{0};
@@ -1263,7 +1320,10 @@ static void run_history(uint64_t seed, bool thorough)
   auto ev = EventLog::get().merged();
   uint64_t sig = 0;
   Stats st;
+  uint64_t viol_before = R.violations_total();
   check_history(c, sname.c_str(), ev, slow, sig, st);
+  if (R.violations_total() != viol_before)
+    dump_history(c, sname, ev);
   R.signature(sig);
   R.count("histories_" + sname);
   R.count("events", ev.size());
